@@ -177,6 +177,20 @@ func (e *SpecEnv) ident(name string) Val {
 		return boolVal(False)
 	case "nil":
 		return Val{T: types.Typ[types.UntypedNil], C: []*Term{IntC(0)}}
+	case "rangepos":
+		// byte position of the range-over-string iterator of the enclosing loop
+		if e.lp != nil {
+			for b := range e.lp.Blocks {
+				for _, in := range b.Instrs {
+					if nx, ok := in.(*ssa.Next); ok {
+						if it, ok := e.st.Regs[nx.Iter]; ok && it.Tuple != nil {
+							return it.Tuple[1]
+						}
+					}
+				}
+			}
+		}
+		e.fail("rangepos used outside a range-over-string loop")
 	}
 	if e.locals && e.fx != nil {
 		// parameters in old(): entry values
@@ -800,6 +814,14 @@ func (e *SpecEnv) call(x *SExpr) Val {
 			la, lb := a.C[2], b.C[2]
 			body := Implies(And(BVSle(BVI(0, 64), i), BVSlt(i, la)), fxx.valuesEqual(e.index(a, iv), e.index(b, iv)))
 			return boolVal(And(Eq(la, lb), Forall([]*Term{i}, body)))
+		case "samebase":
+			// samebase(r, x): r and x are views of the same underlying byte sequence (substring / subslice)
+			a, b := e.eval(args[0]), e.eval(args[1])
+			return boolVal(Eq(a.C[0], b.C[0]))
+		case "suboff":
+			// suboff(r, x): offset of view r inside view x (meaningful when samebase(r, x))
+			a, b := e.eval(args[0]), e.eval(args[1])
+			return intVal(BVSub(a.C[1], b.C[1]))
 		case "hastype":
 			v := e.eval(args[0])
 			t := e.typeOfExpr(args[1])
